@@ -54,7 +54,7 @@ output(std::ostream &out, int indent_level, CPPScope *scope, bool complete) cons
       out << " = ";
       _default_type->output(out, indent_level, scope, false);
     }
-  } else {
+  } else if (_ident != nullptr) {
     _ident->output(out, scope);
   }
 }
